@@ -518,7 +518,7 @@ fn cv_model(r: &mut Runner) {
                 o.viol("function_tokenizer.vocabulary_differs", fname, "vocabulary of the restored vectoriser differs".to_string());
             }
             match lvmc_core::guarded(|| restored.transform(&qdocs()).map(|_| ())) {
-                Ok(Err(e)) if e.to_string() == linfa_preprocessing::PreprocessingError::TokenizerNotSet.to_string() => {}
+                Ok(Err(e)) if matches!(e, linfa_preprocessing::PreprocessingError::TokenizerNotSet) => {}
                 Ok(Err(e)) => o.viol("function_tokenizer.guard_wrong_error", fname, format!("transform before re-supplying the tokenizer failed with `{}` instead of TokenizerNotSet", e)),
                 Ok(Ok(())) => o.viol("function_tokenizer.guard_missing", fname, "the restored vectoriser transforms although its tokenizer function has not been re-supplied (documented guard: must refuse)".to_string()),
                 Err(p) => o.viol("function_tokenizer.guard_panic", fname, format!("transform of the restored vectoriser panicked instead of refusing: {}", p)),
@@ -532,6 +532,22 @@ fn cv_model(r: &mut Runner) {
             if let Some((name, what)) = ob0.diff(&ob1) {
                 o.viol(&format!("function_tokenizer.differs_after_resupply.{}", name.replace(' ', "_")), fname, what);
             }
+        }
+        // every generation history of length <= 4 (quick) / 5 (thorough) over {round trip, repair, use}
+        let depth = if std::env::var("VERIF_TIER").as_deref() == Ok("thorough") { 5 } else { 4 };
+        let spec = Repairable::<CountVectorizer> {
+            repair: &|cv: &mut CountVectorizer| cv.force_tokenizer_function_redefinition(space_tokenizer),
+            use_it: &|cv: &CountVectorizer| {
+                cv.transform(&qdocs()).map_err(|e| format!("{:?}", e))?;
+                let mut ob = Ob::new();
+                cv_canonical_obs(&mut ob, "", cv);
+                Ok(ob.done())
+            },
+            // error KIND compared through Debug (by-catch: the Display texts of TokenizerNotSet and FlippedMinMaxRange are swapped in linfa-preprocessing/src/error.rs:16-19)
+            guard_error: format!("{:?}", linfa_preprocessing::PreprocessingError::TokenizerNotSet),
+        };
+        for f in BINARY_FORMATS {
+            explore_generations(o, f, &m, &spec, depth);
         }
     });
 }
@@ -661,7 +677,7 @@ fn tfidf_model(r: &mut Runner) {
                 }
             };
             match lvmc_core::guarded(|| restored.transform(&qdocs()).map(|_| ())) {
-                Ok(Err(e)) if e.to_string() == linfa_preprocessing::PreprocessingError::TokenizerNotSet.to_string() => {}
+                Ok(Err(e)) if matches!(e, linfa_preprocessing::PreprocessingError::TokenizerNotSet) => {}
                 Ok(Err(e)) => o.viol("function_tokenizer.guard_wrong_error", fname, format!("transform before re-supplying the tokenizer failed with `{}` instead of TokenizerNotSet", e)),
                 Ok(Ok(())) => o.viol("function_tokenizer.guard_missing", fname, "the restored tf-idf vectoriser transforms although its tokenizer function has not been re-supplied".to_string()),
                 Err(p) => o.viol("function_tokenizer.guard_panic", fname, format!("transform of the restored tf-idf vectoriser panicked instead of refusing: {}", p)),
@@ -675,6 +691,21 @@ fn tfidf_model(r: &mut Runner) {
             if let Some((name, what)) = ob0.diff(&ob1) {
                 o.viol(&format!("function_tokenizer.differs_after_resupply.{}", name.replace(' ', "_")), fname, what);
             }
+        }
+        let depth = if std::env::var("VERIF_TIER").as_deref() == Ok("thorough") { 5 } else { 4 };
+        let spec = Repairable::<FittedTfIdfVectorizer> {
+            repair: &|v: &mut FittedTfIdfVectorizer| v.force_tokenizer_redefinition(space_tokenizer),
+            use_it: &|v: &FittedTfIdfVectorizer| {
+                v.transform(&qdocs()).map_err(|e| format!("{:?}", e))?;
+                let mut ob = Ob::new();
+                tfidf_canonical_obs(&mut ob, "", v);
+                Ok(ob.done())
+            },
+            // error KIND compared through Debug (by-catch: the Display texts of TokenizerNotSet and FlippedMinMaxRange are swapped in linfa-preprocessing/src/error.rs:16-19)
+            guard_error: format!("{:?}", linfa_preprocessing::PreprocessingError::TokenizerNotSet),
+        };
+        for f in BINARY_FORMATS {
+            explore_generations(o, f, &m, &spec, depth);
         }
     });
 }
